@@ -31,6 +31,7 @@ class SimThread:
         self.started = False
         self.done = False
         self.blocked_on = None      # predicate -> True when it may continue
+        self.deadline = None        # virtual instant at which a timed wait gives up
         self.sem = _rt.Semaphore(0)
         self.exc = None
         self.daemon = False
@@ -72,6 +73,8 @@ class Sched:
         self.switches = []
         self.out_of_steps = False
         self.stop_when = None        # predicate: end the schedule early (e.g. all non-daemon work done)
+        self.streak = 0              # consecutive steps of the current thread while others could run
+        self.fair_after = 40         # fairness: a spinning thread cannot starve the others for ever
         Sched.cur_sched = self
 
     # -- threads
@@ -89,17 +92,34 @@ class Sched:
             if not t.started or t.done:
                 continue
             if t.blocked_on is not None:
-                if t.blocked_on():
+                if t.blocked_on() or (t.deadline is not None and self.now >= t.deadline):
                     t.blocked_on = None
+                    t.deadline = None
                 else:
                     continue
             out.append(t)
+        if not out:
+            # everybody waits: virtual time jumps to the earliest time-out, if there is one
+            timed = [t for t in self.threads if t.started and not t.done and t.blocked_on is not None and t.deadline is not None]
+            if timed:
+                self.now = min(t.deadline for t in timed)
+                return self.runnable()
         return out
 
     def _choose(self, opts):
         cur = self.cur if self.cur in opts else None
         if len(opts) == 1:
+            self.streak = 0
             return opts[0]
+        if cur is not None:
+            self.streak += 1
+            if self.streak > self.fair_after:
+                # a real scheduler is fair: hand over (round robin) without spending a preemption
+                self.streak = 0
+                others = [o for o in opts if o is not cur]
+                return others[self.steps % len(others)]
+        else:
+            self.streak = 0
         if cur is not None and self.preempts >= self.max_preempt:
             return cur
         order = ([cur] + [o for o in opts if o is not cur]) if cur is not None else opts
@@ -158,13 +178,14 @@ class Sched:
         if self.killed:
             raise Kill()
 
-    def block(self, pred):
+    def block(self, pred, timeout=None):
         t = self._me()
         if t is None:
             if not pred():
                 raise Deadlock('blocking call outside the scheduler would never return')
             return
         t.blocked_on = pred
+        t.deadline = None if timeout is None or timeout < 0 else self.now + timeout
         self.main_sem.release()
         t.sem.acquire()
         if self.killed:
@@ -219,6 +240,8 @@ class ShimRLock:
 
     def release(self):
         s = S()
+        if s is None or s.killed:
+            return                      # the schedule is over: threads are being unwound
         if self.owner is not s.cur:
             raise RuntimeError('cannot release un-acquired lock')
         self.count -= 1
@@ -255,8 +278,8 @@ class ShimEvent:
         if self.flag:
             return True
         g = self.gen
-        s.block(lambda: self.gen != g)
-        return True
+        s.block(lambda: self.gen != g, timeout)
+        return self.gen != g or self.flag
 
 
 class ShimThreading:
@@ -278,10 +301,14 @@ class ShimTime:
 
     @staticmethod
     def sleep(d):
+        # discrete-event model: the sleeper is blocked until virtual time reaches its wake-up
+        # instant, and time only moves when every thread is blocked.  (No starvation: a thread
+        # that sleeps in a loop never keeps the baton.)
         s = S()
-        s.yield_point('sleep')
-        s.now = s.now + d
-        s.yield_point('woke')
+        if s._me() is None:
+            s.now = s.now + d
+            return
+        s.block(lambda: False, d)
 
 
 def traced(cls, fields):
